@@ -42,6 +42,7 @@ pub mod proto {
     }
 }
 pub mod tproto {
+    use vstd::prelude::*;
     pub use super::proto::tetris::{place, Place, RelPlace};
     pub struct Outline { pub x: Vec<i64>, pub y: Vec<i64>, pub metals: i64 }
     #[derive(Debug, Clone, Copy)]
@@ -49,6 +50,12 @@ pub mod tproto {
     pub struct TrackCross { pub track: Option<TrackRef>, pub cross: Option<TrackRef> }
     pub struct Assign { pub net: String, pub at: Option<TrackCross> }
     pub struct Instance { pub name: String, pub cell: Option<super::proto::utils::Reference>, pub loc: Option<Place>, pub reflect_horiz: bool, pub reflect_vert: bool }
+    // prost messages derive Default: every field its type's default
+    impl Default for Outline { fn default() -> (r: Self) ensures r.x@.len() == 0, r.y@.len() == 0, r.metals == 0 { Outline { x: Vec::new(), y: Vec::new(), metals: 0 } } }
+    impl Default for TrackRef { fn default() -> (r: Self) ensures r.layer == 0, r.track == 0 { TrackRef { layer: 0, track: 0 } } }
+    impl Default for TrackCross { fn default() -> (r: Self) ensures r.track is None, r.cross is None { TrackCross { track: None, cross: None } } }
+    impl Default for Assign { fn default() -> (r: Self) ensures r.at is None, r.net@.len() == 0 { Assign { net: String::new(), at: None } } }
+    impl Default for Instance { fn default() -> (r: Self) ensures r.cell is None, r.loc is None, !r.reflect_horiz, !r.reflect_vert, r.name@.len() == 0 { Instance { name: String::new(), cell: None, loc: None, reflect_horiz: false, reflect_vert: false } } }
 }
 //@ item layout21tetris/src/tracks.rs :: struct TrackRef
 //@   derive Debug, Clone, Copy
